@@ -54,6 +54,9 @@ void spawn(F&& f, pika::execution::thread_priority prio = pika::execution::threa
 {
     auto sched = ex::with_priority(ex::thread_pool_scheduler{}, prio);
     ex::execute(sched, std::forward<F>(f));
+    // submitting work is a progress event: workers that were classified as idle/spinning become eligible
+    // again at the next scheduling points (the queue operations themselves are usually not focused)
+    pmc_progress();
 }
 // watch the calling task's whole thread_data (state word, refcount, last worker, ...)
 inline void watch_self_full(const char* name)
